@@ -133,14 +133,15 @@ def preimages(seed, ln=16):
 
 
 def time_grid(ctx, case):
-    kind, signer, choice = case
+    kind, signer, choice = case[:3]
+    deep = len(case) > 3
     seed = ctx.seed
     sk, pk = keys(seed)
     sf = fields(seed)
     tw = tweak(seed)
     pre = preimages(seed)
     n = 0
-    for timeout in (0, 1, 86400, -1, -86400):
+    for timeout in (TIMEOUTS_DEEP if deep else (0, 1, 86400, -1, -86400)):
         lock = build_lock(kind, pk, pre['right'], timeout, tw=tw)
         deadline = T0 + timeout
         if kind.startswith('htlc'):
@@ -151,9 +152,10 @@ def time_grid(ctx, case):
                 continue
         for wk in wkinds:
             w = build_witness(wk, sk, signer, pre[choice], sf, tw=tw)
-            for dt in (-1, 0, 1):
+            for dt in ((-2, -1, 0, 1, 2, 3600) if deep else (-1, 0, 1)):
                 t = deadline + dt
-                for dn in (-1, 0, 1, -(2 * THR + 1), -(THR + 3600)):     # the last two: clock ahead of the timestamp
+                for dn in ((-2, -1, 0, 1, 2, -THR, -(THR - 1), -(THR + 1), -(2 * THR + 1), -(THR + 3600)) if deep else
+                           (-1, 0, 1, -(2 * THR + 1), -(THR + 3600))):     # the last ones: clock level with / ahead of the timestamp
                     now = t - (THR + dn)
                     env.Clock.now = now
                     n += 1
@@ -163,6 +165,9 @@ def time_grid(ctx, case):
                     judge(ctx, w, lock, cache, want, {'lock': kind, 'block': 'time grid', 'path': 'claim' if choice == 'right' else 'refund'},
                           f'{kind} x {wk} signer={signer} preimage={choice} timeout={timeout} t=deadline{dt:+d} t-now={THR + dn}', now)
     ctx.evaluations += max(n - 1, 0)
+
+
+TIMEOUTS_DEEP = (0, 1, 2, 59, 60, 61, 127, 128, 255, 256, 65535, 65536, 86400, 2 ** 31 - 1, 2 ** 31, 2 ** 32, -1, -2, -60, -61, -128, -129, -86400)
 
 
 DEADLINES = sorted({(1 << b) + d for b in (7, 8, 15, 16, 23, 24, 31, 32, 39, 40, 47, 48, 55, 56, 62, 63, 64) for d in (-1, 0, 1)} | {0, 1, 2})
@@ -453,7 +458,7 @@ def cross_case(ctx, case):
 
 def blocks(tier, seed):
     q = tier == 'quick'
-    tg = [(k, s, c) for k in KINDS for s in ('receiver', 'refund', 'outsider') for c in ('right', 'wrong', 'filler')]
+    tg = [(k, s, c) + (() if q else ('deep',)) for k in KINDS for s in ('receiver', 'refund', 'outsider') for c in ('right', 'wrong', 'filler')]
     lens = list(range(1, 65))
     pl = [(k, ln) for k in KINDS[:4] for ln in lens]
     pairs = [('00', '00'), ('01', '01'), ('01', '00'), ('80', '81'), ('81', '80'), ('00', 'ff'), ('7e', 'ff'), ('55', 'aa'), ('aa', 'aa')] + \
@@ -468,7 +473,7 @@ def blocks(tier, seed):
               '(creation time, timeout) decompositions x path x t=deadline-1..+1', nshards=min(len(dw), 64)),
         Block('custom_slack_threshold', [(k, thr) for k in KINDS for thr in (10, 61, 600, 0, -1)], threshold_case,
               'lock kind x verifier ts_threshold {10, 61, 600, 0, -1} x path x t=deadline-1..+1 x t-now around the threshold', nshards=30),
-        Block('time_grid', tg, time_grid, 'lock kind x signer x preimage choice x timeout {0,1,86400,-1,-86400} x t=deadline-1..+1 x t-now in {59, 60, 61, -61, -3600}', nshards=len(tg)),
+        Block('time_grid', tg, time_grid, ('lock kind x signer x preimage choice x timeout {0,1,86400,-1,-86400} x t=deadline-1..+1 x t-now in {59, 60, 61, -61, -3600}' if q else 'lock kind x signer x preimage choice x 23 timeouts (byte-width boundaries, negative) x t=deadline-2..+2,+3600 x t-now in {58..62, 0, +-1, -61, -3600}'), nshards=len(tg)),
         Block('preimage_lengths', pl, preimage_lengths, 'preimage lengths %s x right/wrong x signer; SHAKE digest sizes 1,2,8,15,16,17,20,31,32,33,63,64,65,96,126,127; before and at the deadline' %
               ('1..64'), nshards=min(len(pl), 128)),
         Block('ptlc_tweak_scalars', tweak_scalars(seed), ptlc_tweaks, 'tweak scalars {1, L-1, clamped, unclamped, 2^254+} x witness kinds x signers', nshards=5),
@@ -487,6 +492,6 @@ def meta(tier, seed):
         rule='complete grids executed through the real builders and run_auth_scripts; virtual clock = T0 at build time (deadline = T0 + '
              'timeout) and moved before the run; model from the statement + ref.refvm on the same bytes',
         states_meaning='distinct grid points; transitions = scripts run',
-        bounds={'preimage_lengths': '1..64', 'timeouts': [0, 1, 86400, -1, -86400], 'deadline_widths': '2^b + {-1,0,1}, b in 7,8,15,16,...,62,63,64', 'slack_threshold': THR},
+        bounds={'preimage_lengths': '1..64', 'timeouts': [0, 1, 86400, -1, -86400] if tier == 'quick' else list(TIMEOUTS_DEEP), 'deadline_widths': '2^b + {-1,0,1}, b in 7,8,15,16,...,62,63,64', 'slack_threshold': THR},
         assumptions=['tweak scalars are valid 255-bit scalars (bit 255 clear)', 'hash preimage resistance / Ed25519 hardness for rejections'],
     )
